@@ -23,7 +23,14 @@ META = {
             "correspondence only). In the generator/oracle only, not in the Lean model: struct VALUE semantics (a second, "
             "source-only generator: two-level structs stored into []Out / map[int]Out by composite literal, element "
             "assignment, append, map literal / store, and received in range value variables, with every variable and "
-            "element printed after every step; class struct-copy:<site>); outside both: variadics, floats, string "
+            "element printed after every step; class struct-copy:<site>) and KEPT CLOSURES in collections (a third, "
+            "source-only generator: loops — 3-clause up/down, range over []int, []string, an integer — whose bodies create "
+            "function literals / deferred literals over the loop variables inside nested blocks (if, else, else-if, switch "
+            "case, bare block, inner loop, if in if), with and without declarations or closures directly in the body, keep "
+            "them in a []func, map[int]func, struct field, struct literal in a slice, variable or defer, and call every one "
+            "after the loops: Go 1.22 per-iteration loop variables; class closure-in-nested-block-of-loop-body; the typed "
+            "generator carries the modelled part of it: `kf = func…` stored in a nested block of a loop body, called after "
+            "the loop, through the Lean table too); outside both: variadics, floats, string "
             "indexing, slice aliasing, named constants, goroutines. The Lean table holds RESOLVED variables: a shadowing "
             "declaration (`x := x + 1` inside a loop body or if block) is a fresh variable id printed with the hidden "
             "variable's name, so name resolution is the generator's (a mistake there shows on the Go leg). A statement in "
@@ -103,7 +110,10 @@ def run(ctx):
                 "(2-6 functions, closures, defers, loops, switch, slices/maps/structs, every integer width, boundary "
                 "literals, shadowing declarations in loop bodies, functions that return from inside a range loop called "
                 "from range loops); every 5th program carries ONE construct of a known-divergent class; then struct-value "
-                "programs (one copy site each, 7 sites in turn; no Lean table); non-trivial = distinct "
+                "programs (one copy site each, 7 sites in turn; no Lean table); then closure-capture programs (closures over loop "
+            "variables created in nested blocks of loop bodies, kept in slices / maps / struct fields / variables / defers "
+            "and called after the loops; no Lean table); typed programs carry the 'kept closure' loop shape (a closure "
+            "stored from a nested block of a loop body, called after the loop); non-trivial = distinct "
                 "program text whose Go run produces more than 16 bytes of output; each program runs under real Go and "
                 "under Ego in 3 type modes x optimizer {0,2}",
         "samples": st.get("samples", [])[:4],
